@@ -51,7 +51,7 @@ def judge_c07(line, impl, model):
     # recread / recreads: "<delivered> <status> <prefix-flag> [<seq afterwards>]". What is delivered, whether it is a
     # prefix of what was sent, whether reading ended in an error or at the end of the stream, and the sequence
     # number are the property; WHICH alert a rejected record produces is not.
-    if line.split(" ", 1)[0] in ("recread", "recreads"):
+    if line.split(" ", 1)[0] in ("recread", "recreads", "recreadc"):
         a, b = impl.split(" "), model.split(" ")
         if len(a) != len(b) or len(a) < 3:
             return True
